@@ -147,6 +147,8 @@ pub struct World {
     pub n_disk: u64,
     /// virtual time every completed write to a dump / AOF file takes (a slow disk); 0 = none
     pub disk_write_latency_ns: u64,
+    /// real time after which a quantum that has not come back is a hang (default 30 s)
+    pub watchdog_ns: u64,
     pub site_hits: [u64; N_SITES],
     pub faults_fired: Vec<(Op, Action)>,
     pub panics: Vec<(usize, String)>,
@@ -207,7 +209,7 @@ pub fn init(entropy_seed: u64) {
             fseq: 0, entropy_seed, sim_rng: xo_seed(entropy_seed ^ 0x51ED_270B),
             boot_instance: 0, fds, accept_q: Vec::new(), conns: Vec::new(), armed: Vec::new(),
             disk_prefix: Vec::new(), disk_log: Vec::new(), mute: true, booting: false,
-            n_accept: 0, n_recv: 0, n_send: 0, n_disk: 0, disk_write_latency_ns: 0, site_hits: [0; N_SITES],
+            n_accept: 0, n_recv: 0, n_send: 0, n_disk: 0, disk_write_latency_ns: 0, watchdog_ns: 30_000_000_000, site_hits: [0; N_SITES],
             faults_fired: Vec::new(), panics: Vec::new(), proc_exits: Vec::new(), forbidden_calls: Vec::new(),
             max_alloc: 0, alloc_limit: 1 << 30,
             hash: 0xcbf29ce484222325, log: Vec::new(), log_text: false, switches: 0, sched_hash: 0xcbf29ce484222325, evseq: 0,
@@ -238,7 +240,7 @@ fn park_wait(word: &AtomicU32, watchdog: bool) -> bool {
     loop {
         if word.swap(0, Ordering::SeqCst) == 1 { return true; }
         raw::futex_wait(word as *const AtomicU32 as *const u32, 0, if watchdog { Some(1_000_000_000) } else { None });
-        if watchdog && raw::real_mono_ns() - start > 30_000_000_000 { return false; }
+        if watchdog && raw::real_mono_ns() - start > g().watchdog_ns { return false; }
     }
 }
 fn park_wake(word: &AtomicU32) {
